@@ -332,6 +332,7 @@ Hypothesis Hblocks : blocks_wf K p xs.
 Hypothesis Hexact : data_exact K ofq p xs.
 Hypothesis Hrank : full_rank_on K ofq minv p xs ws st0.
 Hypothesis Hreg : v_regular K minv p xs.
+Hypothesis Hsolver : solver_exact_on K ofq minv solve_sq solve_ls p xs ws st0.
 
 Lemma block_length s : s < length (vp_systems p) -> length (nth s xs []) = vp_unknowns p.
 Proof.
@@ -340,19 +341,19 @@ Qed.
 
 (* THE LOOP OVER V: with at least one further pass allowed it ends with the truth after one or two
    passes, whatever prev_x_vector held *)
-Lemma v_loop_truth s es woff tol more passes prev st :
+Lemma v_loop_truth s es woff tol more passes prev st : woff = woff_of K p s ->
   nth_error (vp_systems p) s = Some es -> reach p xs st0 st -> 1 <= more ->
   exists st' n, v_loop p s ws woff es tol more passes prev st = SOk (nth s xs [], st', n) /\
                 n <= passes + 2 /\ reach p xs st0 st'.
 Proof.
-  intros Hes Hr Hm.
+  intros -> Hes Hr Hm.
   assert (Hs : s < length (vp_systems p)) by (apply nth_error_Some; congruence).
   assert (Hall : forall e, In e es -> eq_wf K p e /\ eq_exact K ofq p (nth s xs []) e)
     by (intros e He; apply (Hexact s es e Hes He)).
   assert (Pass : forall st1, reach p xs st0 st1 ->
-            solve_rows K solve_sq solve_ls (vp_unknowns p) (build_eqs p st1 s ws woff es) = Some (nth s xs [])).
-  { intros st1 Hr1. apply solve_rows_truth; [apply block_length; exact Hs | | apply (Hrank st1 s es woff Hr1 Hes)].
-    apply build_eqs_consistent. exact Hall. }
+            solve_rows K solve_sq solve_ls (vp_unknowns p) (build_eqs p st1 s ws (woff_of K p s) es) = Some (nth s xs [])).
+  { intros st1 Hr1. apply (Hsolver st1 s es (nth s xs []) Hr1 Hes);
+      [apply block_length; exact Hs | apply build_eqs_consistent; exact Hall | apply (Hrank st1 s es Hr1 Hes)]. }
   destruct more as [|m]; [lia|].
   cbn [VMatrixModel.v_loop]. rewrite (Pass st Hr).
   destruct (have_v_after K st s es); cbn [negb].
@@ -389,13 +390,22 @@ Proof.
 Qed.
 
 (* ALL SYSTEMS of one frequency *)
+Lemma firstn_S_concat {A} (l : list (list A)) : forall s es, nth_error l s = Some es ->
+  concat (firstn (S s) l) = concat (firstn s l) ++ es.
+Proof.
+  induction l as [|a l IH]; intros [|s] es H; simpl in *; try discriminate.
+  - inversion H. rewrite app_nil_r. reflexivity.
+  - rewrite (IH s es H). rewrite app_assoc. reflexivity.
+Qed.
+
 Lemma solve_systems_truth tol limit xinit : 2 <= limit -> forall syss sindex woff st,
+  woff = woff_of K p sindex ->
   skipn sindex (vp_systems p) = syss -> reach p xs st0 st ->
   exists st' ns, solve_systems K N ofq minv solve_sq solve_ls p ws tol limit xinit sindex woff syss st
                  = SOk (concat (skipn sindex xs), st', ns) /\
                  reach p xs st0 st' /\ Forall (fun n => 1 <= n <= 2) ns /\ length ns = length syss.
 Proof.
-  intros Hl. induction syss as [|es r IH]; intros sindex woff st Hsk Hr.
+  intros Hl. induction syss as [|es r IH]; intros sindex woff st Hw Hsk Hr.
   - exists st, []. apply skipn_nil_len in Hsk. destruct Hblocks as (L & _).
     rewrite skipn_all2 by lia. cbn. repeat split; [exact Hr | constructor].
   - destruct (skipn_cons_nth _ _ _ _ Hsk) as (Hes & Hr').
@@ -404,9 +414,11 @@ Proof.
     assert (Hin : In es (vp_systems p)) by (apply (nth_error_In _ _ Hes)).
     pose proof (Hcount es Hin) as Hc. apply Nat.ltb_ge in Hc. rewrite Hc.
     destruct (v_loop_truth sindex es woff tol (limit - 1) 0
-                (firstn (vp_unknowns p) (skipn (sindex * vp_unknowns p) xinit)) st Hes Hr) as (st1 & n & E & Hn & Hr1); [lia|].
+                (firstn (vp_unknowns p) (skipn (sindex * vp_unknowns p) xinit)) st Hw Hes Hr) as (st1 & n & E & Hn & Hr1); [lia|].
     rewrite E.
-    destruct (IH (S sindex) (woff + length es) st1 Hr' Hr1) as (st2 & ns & E2 & Hr2 & Hns & Hlen).
+    assert (Hw' : woff + length es = woff_of K p (S sindex)).
+    { unfold woff_of. rewrite (firstn_S_concat _ _ _ Hes), app_length, Hw. reflexivity. }
+    destruct (IH (S sindex) (woff + length es) st1 Hw' Hr' Hr1) as (st2 & ns & E2 & Hr2 & Hns & Hlen).
     rewrite E2. exists st2, (n :: ns).
     destruct Hblocks as (L & _).
     rewrite (skipn_nth_cons xs [] sindex) by lia. cbn [concat].
@@ -417,7 +429,31 @@ Qed.
 End OneFrequency.
 
 (* EXACT DATA ARE A FIXED POINT: one frequency, any earlier solve state, any tolerance, any initial
-   x, iteration limit >= 2 *)
+   x, iteration limit >= 2.  Core form: the solver premise is solver_exact_on *)
+Theorem exact_data_fixed_point_core p xs tol limit xinit st_prev :
+  blocks_wf K p xs -> data_exact K ofq p xs ->
+  (forall es, In es (vp_systems p) -> vp_unknowns p <= length es) -> 2 <= limit ->
+  full_rank_on K ofq minv p xs (calc_weights K N rsqrt p) (init_v_matrices K (v_n K p) st_prev) ->
+  v_regular K minv p xs ->
+  solver_exact_on K ofq minv solve_sq solve_ls p xs (calc_weights K N rsqrt p) (init_v_matrices K (v_n K p) st_prev) ->
+  exists st' ns, solve_frequency K N rsqrt ofq minv solve_sq solve_ls tol limit xinit st_prev p
+                 = SOk (concat xs, st', ns) /\
+                 Forall (fun n => 1 <= n <= 2) ns /\ length ns = length (vp_systems p).
+Proof.
+  intros Hb He Hc Hl Hr Hv Hsol. unfold solve_frequency.
+  destruct (solve_systems_truth p xs (calc_weights K N rsqrt p) (init_v_matrices K (v_n K p) st_prev)
+              Hb He Hr Hv Hsol Hc tol limit xinit Hl (vp_systems p) 0 0 (init_v_matrices K (v_n K p) st_prev) eq_refl eq_refl
+              (reach_start K minv p xs _)) as (st' & ns & E & _ & Hns & Hlen).
+  exists st', ns. split; [exact E | split; [exact Hns | exact Hlen]].
+Qed.
+
+(* linear solvers that return a least-squares minimiser whenever the matrix has full column rank
+   (solver_spec) are exact on the matrices of every solve *)
+Lemma solver_spec_exact_on p xs ws st0 : solver_exact_on K ofq minv solve_sq solve_ls p xs ws st0.
+Proof.
+  intros st s es x0 _ _ rows Hlen Hc Hi. apply solve_rows_truth; assumption.
+Qed.
+
 Theorem exact_data_fixed_point_l p xs tol limit xinit st_prev :
   blocks_wf K p xs -> data_exact K ofq p xs ->
   (forall es, In es (vp_systems p) -> vp_unknowns p <= length es) -> 2 <= limit ->
@@ -427,10 +463,7 @@ Theorem exact_data_fixed_point_l p xs tol limit xinit st_prev :
                  = SOk (concat xs, st', ns) /\
                  Forall (fun n => 1 <= n <= 2) ns /\ length ns = length (vp_systems p).
 Proof.
-  intros Hb He Hc Hl Hr Hv. unfold solve_frequency.
-  destruct (solve_systems_truth p xs (calc_weights K N rsqrt p) (init_v_matrices K (v_n K p) st_prev)
-              Hb He Hr Hv Hc tol limit xinit Hl (vp_systems p) 0 0 (init_v_matrices K (v_n K p) st_prev) eq_refl
-              (reach_start K minv p xs _)) as (st' & ns & E & _ & Hns & Hlen).
-  exists st', ns. split; [exact E | split; [exact Hns | exact Hlen]].
+  intros Hb He Hc Hl Hr Hv.
+  apply exact_data_fixed_point_core; try assumption. apply solver_spec_exact_on.
 Qed.
 End Q.
